@@ -155,6 +155,50 @@ def cells_of(v):
     return c if d != "object" else {}
 
 
+def _completeness(ctx, objs, in_objs, slots, owners, sym, control, rebuild):
+    """for every calculated value and every input slot it depends on (data dependence: the slot's variable occurs in a cell;
+    control dependence: it occurs in a decision taken under the value's update function): the slot's value object is among
+    the value's recorded ancestors, or a solver query shows that the value does not change with the slot"""
+    n_pairs = 0
+    for w, v, oname, attr in calc_values(in_objs):
+        # empty values are kept: a value can be empty *because* of an input (e.g. a zero duration): control dependence
+        anc = {id(a) for a in v.all_ancestors_with_id}
+        cells = cells_of(v)
+        if ctx.symbolic:
+            dvars = set()
+            for c in cells.values():
+                if isinstance(c, Sym):
+                    dvars |= free_vars(c.e)
+            cvars = control.get((objs[oname].name, attr), set())
+            for s in slots:
+                if s not in dvars and s not in cvars:
+                    continue
+                n_pairs += 1
+                if id(owners[s]) in anc:
+                    ctx.require(True, f"{w}: depends on {s}, which is among its ancestors")
+                    continue
+                lab = f"completeness: {w} changes with {s.split('[')[0]} although that input is not among its ancestors"
+                x = ctx.vars[s][0]
+                alt = ctx.var(f"alt.{s}", **sym[s]) if f"alt.{s}" not in ctx.vars else Sym(ctx.vars[f"alt.{s}"][0])
+                if s in dvars:
+                    diffs = [to_z3(c) != z3.substitute(to_z3(c), (x, alt.e)) for c in cells.values() if isinstance(c, Sym)]
+                    ctx.unreachable(z3.Or(*diffs), lab)
+                else:
+                    # control dependence only: candidate for the perturbation replay (alt on the other side is not forced)
+                    ctx.unreachable(alt.e != x, lab)
+        else:
+            for s in slots:
+                if f"alt.{s}" in ctx.inputs and id(owners[s]) not in anc:
+                    lab = f"completeness: {w} changes with {s.split('[')[0]} although that input is not among its ancestors"
+                    objs2 = rebuild({s: float(ctx.inputs[f"alt.{s}"])})
+                    v2 = dict((a, b) for a, b, _, _ in calc_values(objs2)).get(w)
+                    c2 = cells_of(v2) if v2 is not None else {}
+                    changed = set(c2) != set(cells) or any(abs(float(c2[k]) - float(cells[k])) > 1e-9 * max(abs(float(c2[k])), abs(float(cells[k])), 1e-300)
+                                                           for k in cells if k in c2)
+                    ctx.require(not changed, lab, f"{s}: {ctx.inputs[s]} -> {ctx.inputs[f'alt.{s}']}")
+    ctx.count("dependence_pairs", n_pairs)
+
+
 def h_complete(ctx, skeleton, n=2, args=None, only=None):
     spec = M.SKELETONS[skeleton](n, **(args or {}))
     sym = all_input_syms(spec)
@@ -188,44 +232,8 @@ def h_complete(ctx, skeleton, n=2, args=None, only=None):
                     + gt["servers"] + gt["storages"] + ["system"])
     slots = [s for s in sym if s.split(".")[0] in in_system]
     owners = {s: owner_of(objs, spec, s) for s in slots}
-    n_pairs = 0
-    for w, v, oname, attr in calc_values({k: o for k, o in objs.items() if k in in_system}):
-        # empty values are kept: a value can be empty *because* of an input (e.g. a zero duration): control dependence
-        anc = {id(a) for a in v.all_ancestors_with_id}
-        cells = cells_of(v)
-        if ctx.symbolic:
-            dvars = set()
-            for c in cells.values():
-                if isinstance(c, Sym):
-                    dvars |= free_vars(c.e)
-            cvars = control.get((objs[oname].name, attr), set())
-            for s in slots:
-                if s not in dvars and s not in cvars:
-                    continue
-                n_pairs += 1
-                if id(owners[s]) in anc:
-                    ctx.require(True, f"{w}: depends on {s}, which is among its ancestors")
-                    continue
-                lab = f"completeness: {w} changes with {s.split('[')[0]} although that input is not among its ancestors"
-                x = ctx.vars[s][0]
-                alt = ctx.var(f"alt.{s}", **sym[s]) if f"alt.{s}" not in ctx.vars else Sym(ctx.vars[f"alt.{s}"][0])
-                if s in dvars:
-                    diffs = [to_z3(c) != z3.substitute(to_z3(c), (x, alt.e)) for c in cells.values() if isinstance(c, Sym)]
-                    ctx.unreachable(z3.Or(*diffs), lab)
-                else:
-                    # control dependence only: candidate for the perturbation replay (alt on the other side is not forced)
-                    ctx.unreachable(alt.e != x, lab)
-        else:
-            for s in slots:
-                if f"alt.{s}" in ctx.inputs and id(owners[s]) not in anc:
-                    lab = f"completeness: {w} changes with {s.split('[')[0]} although that input is not among its ancestors"
-                    objs2 = M.build(spec, env.child(values={s: float(ctx.inputs[f"alt.{s}"])}))
-                    v2 = dict((a, b) for a, b, _, _ in calc_values(objs2)).get(w)
-                    c2 = cells_of(v2) if v2 is not None else {}
-                    changed = set(c2) != set(cells) or any(abs(float(c2[k]) - float(cells[k])) > 1e-9 * max(abs(float(c2[k])), abs(float(cells[k])), 1e-300)
-                                                           for k in cells if k in c2)
-                    ctx.require(not changed, lab, f"{s}: {ctx.inputs[s]} -> {ctx.inputs[f'alt.{s}']}")
-    ctx.count("dependence_pairs", n_pairs)
+    _completeness(ctx, objs, {k: o for k, o in objs.items() if k in in_system}, slots, owners, sym, control,
+                  lambda vals: M.build(spec, env.child(values=vals)))
     check_graph(ctx, {k: o for k, o in objs.items()}, "after building", chains=False)
 
 
@@ -253,6 +261,42 @@ def h_consistent(ctx, skeleton, script=None, sim=None, n=2, args=None):
             (s.set_updated_values if t == "set" else s.reset_values)()
             if t == "reset":
                 check_graph(ctx, objs, "after set/reset toggles", chains=False)
+
+
+def h_complete_builders(ctx, kind, choice):
+    """completeness of the recorded ancestors on systems made with the builder classes (every numeric builder input)"""
+    from harness import c17
+    env = c17.builder_env(ctx, kind)
+    sym = env.symbolic
+    control = {}
+
+    def hook(cond):
+        vs = free_vars(cond)
+        if not vs:
+            return
+        fr = sys._getframe(2)
+        while fr is not None:
+            nm = fr.f_code.co_name
+            if nm.startswith("update_") and isinstance(fr.f_locals.get("self"), ModelingObject):
+                control.setdefault((fr.f_locals["self"].name, nm[7:]), set()).update(vs)
+            fr = fr.f_back
+    if ctx.symbolic:
+        ctx.decision_hook = hook
+    A = c17.builder_system(ctx, env, kind, choice)
+    if ctx.symbolic:
+        ctx.decision_hook = None
+    V.observe_system(ctx, A)
+    owners = {}
+    for slot in sym:
+        name, param = slot.split(".", 1)
+        if name == "up" and param.startswith("starts"):
+            owners[slot] = A["up"].hourly_usage_journey_starts
+        elif name in A and hasattr(A[name], param):
+            owners[slot] = getattr(A[name], param)
+    slots = list(owners)
+    in_objs = {k: o for k, o in A.items() if isinstance(o, ModelingObject)}
+    _completeness(ctx, A, in_objs, slots, owners, sym, control,
+                  lambda vals: c17.builder_system(ctx, env.child(values=vals), kind, choice))
 
 
 def h_consistent_builders(ctx, kind, choice, edit=True):
@@ -331,7 +375,7 @@ def h_mock_dags(ctx, nodes):
     ctx.count("mock_dags", count)
 
 
-HARNESSES = {"complete": h_complete, "consistent": h_consistent, "mock_dags": h_mock_dags, "consistent_builders": h_consistent_builders}
+HARNESSES = {"complete": h_complete, "consistent": h_consistent, "mock_dags": h_mock_dags, "consistent_builders": h_consistent_builders, "complete_builders": h_complete_builders}
 L = lambda o, a, t: dict(k="link", obj=o, attr=a, target=t)  # noqa
 
 
@@ -347,6 +391,7 @@ def plan(tier, seed):
     from harness.c17 import BUILDER_CASES
     for kind, choice in BUILDER_CASES:
         p.append(("consistent_builders", dict(kind=kind, choice=choice)))
+        p.append(("complete_builders", dict(kind=kind, choice=choice), dict(max_paths=200, max_seconds=200)))
     p.append(("complete", dict(skeleton="TX", only=["srv", "st", "job", "job3", "net", "up", "up2"]), dict(max_paths=300, max_seconds=220)))
     for sc in ([num("job", "data_transferred")], [num("job", "request_duration")], [num("srv", "ram")],
                [num("step", "user_time_spent")], [num("st", "data_storage_duration")]):
